@@ -1187,3 +1187,38 @@ func (A *Analysis) Prepare() {
 		}
 	}
 }
+
+// ReturnsTrue returns the condition, over the function's own atoms, under which an acyclic bool function returns true
+// (nil if the function has loops or too many paths).
+func (A *Analysis) ReturnsTrue() *F {
+	fn := A.Fn
+	var alts []*F
+	for _, rb := range fn.Blocks {
+		ret, ok := rb.Instrs[len(rb.Instrs)-1].(*ssa.Return)
+		if !ok {
+			continue
+		}
+		if len(ret.Results) != 1 {
+			return nil
+		}
+		var paths [][]*ssa.BasicBlock
+		if rb == fn.Blocks[0] {
+			paths = [][]*ssa.BasicBlock{{rb}}
+		} else {
+			paths = simplePaths(fn.Blocks[0], rb, 256)
+			if paths == nil {
+				return nil
+			}
+		}
+		for _, p := range paths {
+			for _, blk := range p {
+				if A.loopHd[blk] {
+					return nil
+				}
+			}
+			c, pc := A.pathCond(p)
+			alts = append(alts, And(c, A.cond(ret.Results[0], pc)))
+		}
+	}
+	return Or(alts...)
+}
